@@ -223,6 +223,8 @@ def main(run: core.Run):
         'data) after load, the continuation is compared with the unsharded '
         'reference; simdist matching/stall oracle throughout; exhaustive '
         'interleavings of a (2,1) save+load history')
+    run.cap('the configuration sweep runs under fixed schedules; rank '
+            'interleavings are exhaustive only in the listed explorations')
     run.sample({k: v for k, v in cfgs[len(cfgs) // 2].items()
                 if k != 'history'})
     run.assumptions += ['DeepSpeed/Megatron stand-ins (gptenv.py)',
